@@ -3,6 +3,18 @@
 TECH = "contract-based deductive verification (symbolic execution of the real source against sidecar contracts; z3 discharges every obligation; bounded counterexamples replayed natively)"
 
 CLAIMS = {
+    "C01": {
+        "category": "proof",
+        "text": "The whole read chain is under contract and every obligation is discharged by z3 for unbounded axis lengths, labels and data: locate_one (least matching position / nearest within tol, IndexError iff absent), locate_many (positions in bounds and exact for present labels), expanded_indexer, AbstractAxis.loc (against the three callee contracts), _get_indices (against AxisLoc; all spellings: tuple, bare, dict by name / by position, axis=name / position; label and position mode; tol; the three sources of the indexing mode incl. both values of the indexing.by option), _getitem (against GetIndices: full orthogonal view equation -- kept dims, labels L[src(k)], cells data[src(k)], scalar results, metadata copied, operand untouched) and the .loc/.iloc/.ix/.nloc/.sel/.isel/take plumbing. Rank is enumerated 0-2 (+ five rank-3 mixes) in quick and 0-3 in thorough; everything else is symbolic.",
+        "note": "Assumed: the NumPy contract library (searchsorted, argsort, take/clip, boolean compress with witness enumeration, np.ix_ open-mesh advanced indexing incl. NumPy's placement rule, slice arithmetic); _expand_slice replaced by its definition (slice.indices needs concrete ints). Not covered by proof: the N-d boolean mask read (compress -> getaxes_broadcast) and indexing.broadcast=True; keepdims. Labels unique, never NaN; mathematical ints; floats as reals.",
+        "technique": TECH,
+    },
+    "C03": {
+        "category": "proof",
+        "text": "_setitem is proved against the same GetIndices contract a read uses: with pos the position tuple, exactly the cells pos addresses change (closed-form membership for slices and masks, existential for position lists), each to the broadcast right-hand side at its selection coordinate, all other cells / labels / dims / metadata untouched; inplace=False leaves the receiver's buffer untouched and returns a modified deep copy; cast=True widens per _maybe_cast_type's table (itself proved for all 16 kind pairs among b/i/f/O) and without it a float stored into int data is truncated (modelled, so dropping the cast is a refuted obligation). N-d boolean masks with scalar values included. Ranks 1-2 quick, 1-3 thorough; sizes, labels, data symbolic.",
+        "note": "Assumed: NumPy assignment semantics as modelled in symnp._setitem (basic + open-mesh integer arrays with last-write-wins, boolean masks, broadcasting of the value to the selection shape), deepcopy of arrays. List indices are taken duplicate-free (read-back is only well defined then). Array right-hand sides for label *slices* are covered with scalar values only.",
+        "technique": TECH,
+    },
     "C02": {
         "category": "proof",
         "text": "locate_slice, _locate_slice_strict (inlined), locate_one and the slice branch of AbstractAxis.loc are proved, for every axis length (0 included), every strictly monotonic numeric axis in both directions, all steps in {None,1,2,3,-1,-2}, every combination of present/absent bounds with arbitrary real values, and for unique string labels, to return a slice that visits exactly the inclusive bounding box / the run between the two labels, in travel order, never wrapped around. Unbounded in length, labels and bounds; discharged by z3 per path.",
